@@ -200,6 +200,9 @@ class TestCasePostProcessor(cv.ChromosomeVisitor):
     ) -> None:
         for test_case_chromosome in chromosome.test_case_chromosomes:
             test_case_chromosome.accept(self)
+        # The test cases were modified in place; without this, values cached for the
+        # suite (e.g., its coverage) would still describe the unprocessed test cases.
+        chromosome.changed = True
 
     def visit_test_case_chromosome(  # noqa: D102
         self, chromosome: tcc.TestCaseChromosome
@@ -208,6 +211,7 @@ class TestCasePostProcessor(cv.ChromosomeVisitor):
             visitor.visit_default_test_case(chromosome.test_case)
             # Remove the last execution result to force re-execution of the test case
             chromosome.remove_last_execution_result()
+        chromosome.changed = True
 
 
 class ModificationAwareTestCaseVisitor(ABC):
